@@ -130,3 +130,113 @@ Definition quad_edge_lines (p0 p1 p2 : pt) (shift : Z) : option (list ledge) :=
       | Some e => do rest <- quad_lines_loop 70 (fst r); Some (e :: rest)
       end
   end.
+
+(* ---- CubicEdge ----------------------------------------------------------------------------------------------------------------------- *)
+(* cubic_delta_from_line: |(8a - 15b + 6c + d) * 19 >> 9| and |(a + 6b - 15c + 8d) * 19 >> 9|, the larger *)
+Definition cubic_delta_from_line (a b c d : Z) : option Z :=
+  do t1 <- ck (a * 8); do t2 <- ck (b * 15); do t3 <- ck (t1 - t2); do t4 <- ck (6 * c); do t5 <- ck (t3 + t4); do t6 <- ck (t5 + d);
+  do t7 <- ck (t6 * 19);
+  let one_third := sar t7 9 in
+  do u1 <- ck (6 * b); do u2 <- ck (a + u1); do u3 <- ck (c * 15); do u4 <- ck (u2 - u3); do u5 <- ck (d * 8); do u6 <- ck (u4 + u5);
+  do u7 <- ck (u6 * 19);
+  let two_third := sar u7 9 in
+  do a1 <- ck (Z.abs one_third); do a2 <- ck (Z.abs two_third);
+  Some (Z.max a1 a2).
+
+(* fdot6_up_shift: debug_assert!((left_shift(x, s) >> s) == x) *)
+Definition fdot6_up_shift (x s : Z) : option Z :=
+  let r := left_shift x s in if sar r s =? x then Some r else None.
+
+Record cubic := mkcubic {
+  c_count : Z; c_shift : Z; c_dshift : Z;
+  c_x : Z; c_y : Z; c_dx : Z; c_dy : Z; c_ddx : Z; c_ddy : Z; c_dddx : Z; c_dddy : Z; c_lastx : Z; c_lasty : Z; c_wind : Z }.
+
+(* the coefficients of one axis: (cdx, cddx, cdddx) *)
+Definition cubic_coeffs (v0 v1 v2 v3 shift up_shift : Z) : option (Z * Z * Z) :=
+  do b0 <- ck (v1 - v0); do b1 <- ck (3 * b0); do b <- fdot6_up_shift b1 up_shift;
+  do c0 <- ck (v0 - v1); do c1 <- ck (c0 - v1); do c2 <- ck (c1 + v2); do c3 <- ck (3 * c2); do c <- fdot6_up_shift c3 up_shift;
+  do d0 <- ck (v1 - v2); do d1 <- ck (3 * d0); do d2 <- ck (v3 + d1); do d3 <- ck (d2 - v0); do d <- fdot6_up_shift d3 up_shift;
+  do e0 <- ck (b + sar c shift); do cdx <- ck (e0 + sar d (2 * shift));
+  do d3x <- ck (3 * d);
+  do f0 <- ck (2 * c); do cddx <- ck (f0 + sar d3x (shift - 1));
+  Some (cdx, cddx, sar d3x (shift - 1)).
+
+(* CubicEdge::new2(points, shift, sort_y = true): None = panic, Some None = zero height *)
+Definition cubic_new2 (p0 p1 p2 p3 : pt) (shift : Z) : option (option cubic) :=
+  let scale := F32.of_Z (2 ^ (shift + 6)) in
+  let cv := fun v => F32.to_i32 (F32.mul v scale) in
+  let x0 := cv (px p0) in let y0 := cv (py p0) in
+  let x1 := cv (px p1) in let y1 := cv (py p1) in
+  let x2 := cv (px p2) in let y2 := cv (py p2) in
+  let x3 := cv (px p3) in let y3 := cv (py p3) in
+  let '(x0, y0, x1, y1, x2, y2, x3, y3, winding) :=
+    if y3 <? y0 then (x3, y3, x2, y2, x1, y1, x0, y0, -1) else (x0, y0, x1, y1, x2, y2, x3, y3, 1) in
+  do top <- fdot6_round y0;
+  do bot <- fdot6_round y3;
+  if top =? bot then Some None else
+  do dx <- cubic_delta_from_line x0 x1 x2 x3;
+  do dy <- cubic_delta_from_line y0 y1 y2 y3;
+  do sh0 <- diff_to_shift dx dy 2;
+  do sh1 <- ck (sh0 + 1);
+  if sh1 <=? 0 then None else
+  let sh := if max_coeff_shift <? sh1 then max_coeff_shift else sh1 in
+  let down0 := sh + 6 - 10 in
+  let '(up_shift, down_shift) := if down0 <? 0 then (10 - sh, 0) else (6, down0) in
+  let count := - 2 ^ sh in          (* left_shift(-1, shift) as i8 *)
+  do kx <- cubic_coeffs x0 x1 x2 x3 sh up_shift;
+  do cx <- fdot6_to_fdot16 x0;
+  do ky <- cubic_coeffs y0 y1 y2 y3 sh up_shift;
+  do cy <- fdot6_to_fdot16 y0;
+  do lx <- fdot6_to_fdot16 x3;
+  do ly <- fdot6_to_fdot16 y3;
+  let '(cdx, cddx, cdddx) := kx in let '(cdy, cddy, cdddy) := ky in
+  Some (Some (mkcubic count sh down_shift cx cy cdx cdy cddx cddy cdddx cdddy lx ly winding)).
+
+Fixpoint cubic_update_loop (fuel : nat) (c : cubic) (count oldx oldy : Z) : option (cubic * option ledge) :=
+  match fuel with
+  | O => None
+  | S fuel' =>
+      let count := count + 1 in
+      do nxt <- (if count <? 0 then
+                   do nx <- ck (oldx + sar (c_dx c) (c_dshift c));
+                   do dx' <- ck (c_dx c + sar (c_ddx c) (c_shift c)); do ddx' <- ck (c_ddx c + c_dddx c);
+                   do ny <- ck (oldy + sar (c_dy c) (c_dshift c));
+                   do dy' <- ck (c_dy c + sar (c_ddy c) (c_shift c)); do ddy' <- ck (c_ddy c + c_dddy c);
+                   Some (nx, ny, dx', dy', ddx', ddy')
+                 else Some (c_lastx c, c_lasty c, c_dx c, c_dy c, c_ddx c, c_ddy c));
+      let '(newx, newy0, dx, dy, ddx, ddy) := nxt in
+      let newy := if newy0 <? oldy then oldy else newy0 in
+      let c' := mkcubic count (c_shift c) (c_dshift c) newx newy dx dy ddx ddy (c_dddx c) (c_dddy c) (c_lastx c) (c_lasty c) (c_wind c) in
+      do r <- line_update (c_wind c) oldx oldy newx newy;
+      match r with
+      | Some e => Some (c', Some e)
+      | None => if count =? 0 then Some (c', None) else cubic_update_loop fuel' c' count newx newy
+      end
+  end.
+Definition cubic_update (c : cubic) : option (cubic * option ledge) :=
+  if 0 <=? c_count c then None   (* debug_assert!(count < 0) *)
+  else cubic_update_loop 70 c (c_count c) (c_x c) (c_y c).
+
+Fixpoint cubic_lines_loop (fuel : nat) (c : cubic) : option (list ledge) :=
+  match fuel with
+  | O => None
+  | S fuel' =>
+      if 0 <=? c_count c then Some []
+      else
+        do r <- cubic_update c;
+        match snd r with
+        | None => Some []
+        | Some e => do rest <- cubic_lines_loop fuel' (fst r); Some (e :: rest)
+        end
+  end.
+Definition cubic_edge_lines (p0 p1 p2 p3 : pt) (shift : Z) : option (list ledge) :=
+  do c0 <- cubic_new2 p0 p1 p2 p3 shift;
+  match c0 with
+  | None => Some []
+  | Some c =>
+      do r <- cubic_update c;
+      match snd r with
+      | None => Some []
+      | Some e => do rest <- cubic_lines_loop 70 (fst r); Some (e :: rest)
+      end
+  end.
